@@ -165,9 +165,38 @@ def build_router(pt, cfg):
 
 
 def optimize_of(pt, opt):
-    if opt is None:
+    """opt = None | (scratch_slots, frame_pointers) | (scratch_slots, frame_pointers, assemble_constants)"""
+    if opt is None or (opt[0] is None and opt[1] is None):
         return None
     return pt.OptimizeOptions(scratch_slots=opt[0], frame_pointers=opt[1])
+
+
+def asm_of(opt):
+    return bool(opt is not None and len(opt) > 2 and opt[2])
+
+
+def compile_router(pt, router, version, opt):
+    """Router.compile_program with the option triple: version, OptimizeOptions, assemble_constants"""
+    return router.compile_program(version=version, assemble_constants=asm_of(opt), optimize=optimize_of(pt, opt))
+
+
+def directed_oc_cfgs():
+    """Every OnCompletion a registration can mention, as a bare action and as a method entry, alone and together
+    with its neighbours: what a wrong OnCompletion constant (or a swapped pair) in any code path shows on."""
+    out = []
+    for i, oc in enumerate(OC5):
+        cc = CCS[1 + i % 3]
+        out.append({"bare": {oc: ["expr", "all"]}, "clear": None, "methods": []})
+        out.append({"bare": {}, "clear": "expr", "methods": [{"name": "m0", "hid": 0, "shape": "v0", "mc": {oc: "all"}, "via": "add"}]})
+        out.append({"bare": {oc: ["sub", cc]}, "clear": None,
+                    "methods": [{"name": "m0", "hid": 0, "shape": "v0", "mc": {oc: CCS[1 + (i + 1) % 3]}, "via": "decorator"}]})
+        others = [o for o in OC5 if o != oc]
+        out.append({"bare": {o: ["expr", "all"] for o in others}, "clear": "expr",
+                    "methods": [{"name": "m0", "hid": 0, "shape": "a1", "mc": {o: "all" for o in others}, "via": "add"}]})
+    out.append({"bare": {oc: ["expr", CCS[1 + i % 3]] for i, oc in enumerate(OC5)}, "clear": "abisub",
+                "methods": [{"name": "m0", "hid": 0, "shape": "v0", "mc": {oc: CCS[1 + (i + 1) % 3] for i, oc in enumerate(OC5)}, "via": "add"},
+                            {"name": "m1", "hid": 1, "shape": "r0", "mc": {oc: "all" for oc in OC5}, "via": "add"}]})
+    return out
 
 
 # ---------------------------------------------------------------------------------------------
